@@ -77,10 +77,10 @@ CHECKS = {
     ),
     "C02": dict(
         category="fault_enumeration",
-        text="Per generated scenario (estimator class x configuration x data x operation history) a dry run lists the fault sites reached by fit and every single site is failed once (exhaustive single-fault enumeration per scenario, pairs in the thorough tier, under drawn thread schedules where the class has n_jobs), and every applicable invalid-data kind is tried; after every operation get_params and the caller's arrays are compared with their state before, fit must return self, and the last successful fit must equal, bit for bit, a fresh estimator fitted under the same seed, entropy and taped schedule. Scenarios are sampled; the enumeration within a scenario is complete.",
+        text="Per generated scenario (estimator class x configuration x data x operation history) a dry run lists the fault sites reached by fit and every single site is failed once (exhaustive single-fault enumeration per scenario, pairs in the thorough tier, under drawn thread schedules where the class has n_jobs), every applicable invalid-data kind is tried, or (third mode) the Python-level calls that leave mlinsights during fit are numbered and call k raises a ValueError / RuntimeError / MemoryError / interruption (all k when at most 16 quick / 48 thorough, otherwise that many drawn); after every operation get_params and the caller's arrays are compared with their state before, fit must return self, and the last successful fit must equal, bit for bit, a fresh estimator fitted under the same seed, entropy and taped schedule. Scenarios are sampled; the enumeration within a scenario is complete.",
         design_ref="DESIGN.md §4 C02, §3.6",
-        note="Trusted: fault sites are calls on peer estimators (subclasses of real scikit-learn estimators keeping signatures); failures inside mlinsights' own numpy code are reached only through invalid inputs; QuantileMLPRegressor / ARTimeSeriesRegressor / mlbatch / search_rank cannot run here; copy_x=False / copy_X=False exempt from the data oracle.",
-        technique="deterministic simulation: single-fault enumeration over peer call sites + invalid-data faults inside operation histories, seeded thread scheduler, reference = fresh estimator",
+        note="Trusted: fault sites are calls on peer estimators (subclasses of real scikit-learn estimators keeping signatures) and, in the foreign-call mode, the Python-level calls from mlinsights into scikit-learn / numpy / the harness made in the caller's thread (raised from a sys.settrace handler, no hook in /repo); failures inside C-implemented numpy functions are reached only through invalid inputs; QuantileMLPRegressor / ARTimeSeriesRegressor / mlbatch / search_rank cannot run here; copy_x=False / copy_X=False exempt from the data oracle.",
+        technique="deterministic simulation: single-fault enumeration over peer call sites and over the calls that leave the library (foreign-call fault seam) + invalid-data faults inside operation histories, seeded thread scheduler, reference = fresh estimator",
     ),
     "C08": dict(
         category="exploration",
